@@ -229,7 +229,7 @@ func setupC13(w *World, setup []Op, torn, big int) (*Snapshot, bool) {
 			}
 		}
 	}
-	if torn > 0 {
+	if b := ReadLog(w.Root); torn > 0 && (len(b) == 0 || b[len(b)-1] == '\n') {
 		frag := `{"type":"state","ts":"2026-01-01T00:00:00Z","data":{"id":"ZZZZZZ","state":"do` + bigBody(torn)
 		f, _ := os.OpenFile(LogPath(w.Root), os.O_APPEND|os.O_WRONLY, 0o644)
 		f.WriteString(frag)
